@@ -145,6 +145,16 @@ func (st *Store) Append(s Series) {
 	}
 }
 
+// WithFaults returns a view of the same series (same label slices, same samples) whose callbacks
+// fail as described; counters and ledgers are the view's own.
+func (st *Store) WithFaults(faults []Fault) *Store {
+	o := st.opts
+	o.Faults = faults
+	v := &Store{opts: o, counts: map[string]int{}, callTotal: map[string]int{}, postCancel: map[string]int{}}
+	v.series = st.series
+	return v
+}
+
 // MarkCancelled tells the store that cancellation is now visible (C14 accounting).
 func (st *Store) MarkCancelled() { st.cancelled.Store(true) }
 
@@ -272,6 +282,9 @@ func (st *Store) hit(ctx context.Context, call, selKey string, series int, local
 		if st.CancelFn != nil {
 			st.CancelFn()
 		}
+		if call == "Close" {
+			time.Sleep(3 * time.Millisecond) // let the other goroutine's Cancel/Close overlap with this Close
+		}
 		return actNone, nil
 	case "block":
 		// the callback blocks until its context is done; the harness cancels from outside
@@ -332,6 +345,12 @@ func (q *mQuerier) LabelNames(...*labels.Matcher) ([]string, storage.Warnings, e
 }
 
 func (q *mQuerier) Close() error {
+	if !q.st.opts.Pure {
+		// an address like the others: a cancellation (or a Close of the query by another goroutine) can be
+		// made to arrive while the engine is closing its queriers
+		var local uint64
+		q.st.hit(q.ctx, "Close", "", -1, &local)
+	}
 	if q.rec != nil {
 		q.st.mu.Lock()
 		if q.rec.Closes == 0 {
@@ -401,7 +420,12 @@ func (q *mQuerier) Select(sortSeries bool, hints *storage.SelectHints, matchers 
 			sel = append(sel, s)
 		}
 	}
-	if st.opts.PermuteSeed != 0 && !sortSeries {
+	if st.opts.PermuteSeed == ^uint64(0) && !sortSeries {
+		// the exact reverse of the sorted order: every pair of series changes places
+		for i, j := 0, len(sel)-1; i < j; i, j = i+1, j-1 {
+			sel[i], sel[j] = sel[j], sel[i]
+		}
+	} else if st.opts.PermuteSeed != 0 && !sortSeries {
 		r := NewRng(st.opts.PermuteSeed, uint64(len(sel)))
 		for i := len(sel) - 1; i > 0; i-- {
 			j := r.Intn(i + 1)
